@@ -113,9 +113,20 @@ func lexTables() string {
 // the significant alphabet of the property text
 const lexAlpha = "019aeExb_nuUfi.+-\"`\\/*=!:<>&|({ \n\t\r\x00\x80\xc2\xa0"
 
+// bodies of string literals (source text between the quotes): escapes whose VALUE is 0, below and
+// above 0x80, valid and invalid runes, octal-looking and unknown escapes, truncated escapes, a
+// backslash at the very end, raw UTF-8 and raw invalid bytes
+var escapeBodies = []string{
+	`\x00`, `\u0000`, `\U00000000`, `\x7f`, `\x80`, `\xff`, `\xc3\xa9`, `\u00e9`, `\u2261`, `\U0001F600`, `\U00110000`, `\ud800`, `\uffff`,
+	`\0`, `\00`, `\101`, `\q`, `\a`, `\b`, `\f`, `\v`, `\'`, "\\`", `\\`, `\"`, `\n\t\r`, `\x4`, `\xg1`, `\u12`, `\U0001F60`, `\x`, `\u`, `\U`, `\`,
+	`a\x00b`, `a\u0000b`, `\x00\x00`, `\xff\xfe`, `\x41\u0042\U00000043`, `nul:\u0000:byte`,
+	"é", "≡", "😀", "\xff", "\x80", "\xc3", "\xc3\x28", "\xed\xa0\x80", "\xf4\x90\x80\x80", "a\x00b", "",
+}
+
 var lexFragments = []string{
 	"1e+", "1e", ".5.", ".5", "1.", "..", "0x1F", "0b101", "0x", "0b", "1_000", "1e5", "2.5e-3", "1E+9", ".e", "9.9.9",
 	"\"", "`", "\\", "\\\"", "\\n", "\\t", "\\r", "\\x41", "\\u00e9", "\\U0001F600", "\\u", "\\x", "\\U",
+	"\\x00", "\\u0000", "\\x7f", "\\x80", "\\xff", "\\U00110000", "\\0", "\\q", "é", "≡",
 	"//", "/*", "*/", "/", "*", "\n", " ", "\t", "\r", "\x00", "\x80", "\xc2\xa0", "\xc2\x85", "\xe2\x80\xa8", "\xe3\x80\x80",
 	"func", "if", "else", "return", "true", "false", "for", "len", "println", "macro", "quote", "unquote", "del", "iff", "If", "_x", "x1", "abc",
 	"=", "==", "=>", ":=", "!=", "!", ":", "+", "++", "-", "--", "<", "<=", "<<", ">", ">=", ">>", "&", "&&", "|", "||", ".", "%", "^", "~",
@@ -134,6 +145,24 @@ func lexGen(tier string, r *rng, emit func(string)) {
 		"\"abc", "`abc", "\"\\", "\"\\x", "\"\\u12", "\"\\U0001F60", "/*", "/*/", "/**/", "//", "// x \t\r\n y", "//\xc2\xa0\n", "//a\xe2\x80\xa8",
 		"0x", "0b", "0x1fG", "0b102", "1..3", "1.e5", "1_0._5e_1", "\x80", "\xff", "a\xc2\xa0b", "if iff _if if_ If"} {
 		both(s)
+	}
+	// string literals: every escape form and raw byte class, alone, adjacent, unterminated, in both quote
+	// styles (backquote strings take no escapes), see escapeBodies
+	for _, q := range []string{"\"", "`"} {
+		for i, b := range escapeBodies {
+			lit := q + b + q
+			both(lit)
+			both(lit + "x")
+			both("x" + lit)
+			both("a = " + lit + " + 1")
+			both(q + b)                                     // unterminated
+			both(q + "ab" + b)                              // unterminated after some text
+			both(q + b + "\n" + q)                          // a newline inside
+			for j := i % 3; j < len(escapeBodies); j += 3 { // adjacent literals
+				both(lit + q + escapeBodies[j] + q)
+				both(q + b + escapeBodies[j] + q + " " + "`" + escapeBodies[j] + "`")
+			}
+		}
 	}
 	// exhaustive over the significant alphabet
 	maxLen := 3
